@@ -533,6 +533,10 @@ func (t *Trie) getFromStore(h util.Uint256) (Node, error) {
 	if r.Err != nil {
 		return nil, r.Err
 	}
+	if _, ok := n.Node.(flushedNode); !ok || n.Node.Type() == HashT {
+		// Only branch, extension and leaf nodes are ever stored.
+		return nil, fmt.Errorf("unexpected %T in the storage", n.Node)
+	}
 
 	if t.mode.RC() {
 		data = data[:len(data)-5]
